@@ -157,15 +157,17 @@ def _check_table(viol, df, A, ts, outputs, ns, tag, extra_rows=0):
     for o, name in enumerate(outputs):
         for t in range(len(ts)):
             for s in range(ns):
-                want[(s + 1, float(ts[t]), name)] = A[o, t, s]
+                want.setdefault((s + 1, float(ts[t]), name), []).append(
+                    float(A[o, t, s]))
+    # (replicate measurements at one time: a label holds as many values as the time
+    # was requested)
     got = {}
-    dup = False
     for _, r in rows.iterrows():
         key = (int(r['ID']), float(r['Time']), r['Observable'])
-        dup = dup or key in got
-        got[key] = float(r['Value'])
-    ok = (not dup) and set(got) == set(want) and all(
-        tol.close(got[k_], want[k_]) for k_ in want)
+        got.setdefault(key, []).append(float(r['Value']))
+    ok = set(got) == set(want) and all(
+        len(got[k_]) == len(want[k_]) and tol.allclose(
+            np.sort(got[k_]), np.sort(want[k_])) for k_ in want)
     if not ok:
         viol.append({'sub': 'table', 'message': 'the returned table does not label '
                      'every value with its sample ID, time and observable (%s)'
@@ -195,10 +197,18 @@ def w_poppred(case):
     top = np.array(case['top'], dtype=float)
     cov = None if case.get('cov') is None else np.array(case['cov'], dtype=float)
     kw = {'covariates': cov} if cov is not None else {}
+    def the_seed():
+        st = case.get('seed_type', 'int')
+        if st == 'np.int64':
+            return np.int64(7)
+        if st == 'generator':
+            return np.random.default_rng(7)
+        return 7
     try:
         with Seam(Script(base=generic)) as seam:
-            A = np.asarray(ppm.sample(top, list(times), n_samples=ns, seed=7,
-                                      return_df=False, **kw), dtype=float)
+            A = np.asarray(ppm.sample(top, list(times), n_samples=ns,
+                                      seed=the_seed(), return_df=False, **kw),
+                           dtype=float)
     except Exception as e:
         beh = 'poppred_raise:' + type(e).__name__
         return {'transitions': 1, 'outcome': 'raise', 'violations': [{
@@ -207,16 +217,25 @@ def w_poppred(case):
             % (ns, case.get('prev_n_ids'), type(e).__name__, str(e)[:150]),
             'expected': 'samples', 'observed': repr(e)[:300], 'behaviour': beh}]}
     # the individuals chi's own population model yields under the same script
-    pop2 = popbuild.build(spec, None)
+    # (sub-model by sub-model, each with its own slice of the parameters and its
+    # own covariate columns, continuing one generator)
+    parts = rp.elementary_parts(spec) if spec['kind'] == 'Comp' else [spec]
+    c2 = None if cov is None else np.broadcast_to(
+        np.atleast_2d(cov), (ns, np.atleast_2d(cov).shape[1]))
     with Seam(Script(base=generic)) as seam2:
         rng = np.random.default_rng(7)
-        c2 = cov
-        patients = pop2.sample(top, n_samples=ns, seed=rng, **({
-            'covariates': c2} if c2 is not None else {}))
-        psi = np.asarray(pop2.compute_individual_parameters(
-            top, patients, **({'covariates': np.broadcast_to(
-                np.atleast_2d(c2), (ns, np.atleast_2d(c2).shape[1]))}
-                if c2 is not None else {})), dtype=float)
+        cols = []
+        t0 = c0 = 0
+        for part in parts:
+            sub = popbuild.build(part, None)
+            nt, ncv = rp.n_top(part, 1), rp.n_cov(part)
+            kw_p = {'covariates': c2[:, c0:c0 + ncv]} if ncv else {}
+            pat = sub.sample(top[t0:t0 + nt], n_samples=ns, seed=rng, **kw_p)
+            cols.append(np.asarray(sub.compute_individual_parameters(
+                top[t0:t0 + nt], pat, **kw_p), dtype=float).reshape(ns, -1))
+            t0 += nt
+            c0 += ncv
+        psi = np.hstack(cols)
         n_used = len(seam2.log)
         stream = 'seed:7'
         rest = [seam2.script(stream, i, 'z') for i in range(
@@ -240,16 +259,20 @@ def w_poppred(case):
                      'behaviour': 'poppred_process'})
     # table
     with Seam(Script(base=generic)):
-        df = ppm.sample(top, list(times), n_samples=ns, seed=7, return_df=True, **kw)
+        df = ppm.sample(top, list(times), n_samples=ns, seed=the_seed(),
+                        return_df=True, **kw)
     _check_table(viol, df, A, ts, ['r0'], ns, 'poppred')
     if cov is not None:
         cnames = pop.get_covariate_names()
         c2d = np.broadcast_to(np.atleast_2d(cov), (ns, len(cnames)))
-        for ci, cn in enumerate(cnames):
+        for cn in sorted(set(cnames)):
+            # (sub-models number their covariates independently: a name may label
+            # several columns)
             rows = df[df['Observable'] == cn]
             got = sorted((int(r['ID']), float(r['Value']))
                          for _, r in rows.iterrows())
-            want = sorted((s + 1, float(c2d[s, ci])) for s in range(ns))
+            want = sorted((s + 1, float(c2d[s, ci])) for s in range(ns)
+                          for ci, c_ in enumerate(cnames) if c_ == cn)
             if got != want:
                 viol.append({'sub': 'cov_rows', 'message': 'covariate rows of the '
                              'table do not list each sample\'s covariates',
@@ -506,13 +529,17 @@ def build(tier, seed):
     pred = []
     for k in (1, 2) if tier == 'quick' else (1, 2, 3):
         for ns in (1, 2) if tier == 'quick' else (1, 2, 3):
-            for p in perms:
+            for p in perms + [[1.25, 0.5, 1.25], [2.0, 2.0, 0.5, 2.0]]:
+                # (the last two: replicate measurements at one time)
                 pred.append({'k': k, 'n_samples': ns, 'times': p})
     pops = [rp.Comp([rp.G(1), rp.LN(1)]), rp.Comp([rp.LN(1, False), rp.P(1)]),
             rp.Comp([rp.G(1, False), rp.LN(1, False)]), rp.LN(2),
             rp.Comp([rp.P(1), rp.LN(1)]), rp.Comp([rp.Cov(rp.LN(1), 1), rp.P(1)]),
             rp.Comp([rp.Cov(rp.LN(1, False), 2), rp.LN(1)]),
-            rp.Comp([rp.Cov(rp.P(1), 1), rp.LN(1)])]
+            rp.Comp([rp.Cov(rp.P(1), 1), rp.LN(1)]),
+            # two covariate sub-models reading different covariate columns
+            rp.Comp([rp.Cov(rp.G(1), 1), rp.Cov(rp.LN(1), 2)]),
+            rp.Comp([rp.Cov(rp.LN(1, False), 2), rp.Cov(rp.LN(1), 1)])]
     popc = []
     for spec in pops:
         for ns in (1, 2, 3):
@@ -525,8 +552,12 @@ def build(tier, seed):
                         mat = popvals.covariates(spec, ns, seed)
                         covs = [mat.tolist(), mat[0].tolist()]
                     for cov in covs:
-                        popc.append({'spec': spec, 'n_samples': ns, 'times': p,
-                                     'top': top, 'cov': cov, 'prev_n_ids': prev})
+                        for st in ('int', 'np.int64', 'generator'):
+                            if st != 'int' and (prev or p != perms[0]):
+                                continue
+                            popc.append({'spec': spec, 'n_samples': ns, 'times': p,
+                                         'top': top, 'cov': cov, 'prev_n_ids': prev,
+                                         'seed_type': st})
     post = []
     for nc, nd in ((2, 3), (1, 2)) if tier == 'quick' else ((2, 3), (1, 2), (3, 2)):
         rows = nc * nd
